@@ -11,7 +11,7 @@ HERE = os.path.dirname(os.path.dirname(os.path.abspath(__file__)))
 CLAIMS = {
     "C19": (
         "3/C19",
-        "exhaustive path enumeration over the AST of the start-up functions (path-sensitive abstract walker), event-order specification, try-swallow analysis",
+        "exhaustive path enumeration over the AST of the start-up functions (path-sensitive abstract walker), event-order specification, try-swallow analysis, call-graph reachability of the document-root memo from the start-up steps before the dropper",
         "All feasible paths of the privilege dropper and of initialize() are enumerated from the current source "
         "(2^k option combinations, callees inlined); each path's sequence of privileged calls is checked against the "
         "order the property states (bind+TLS keys < chroot < root:='/' & chdir < setgroups(()) < set*gid < set*uid, "
@@ -90,7 +90,7 @@ CLAIMS.update({
     ),
     "C11": (
         "3/C11",
-        "effect-site enumeration of deserialisations + try/handler coverage + failure-path walk",
+        "effect-site enumeration of deserialisations + try/handler coverage (generator loaders: the guard must cover the materialisation) + failure-path walk",
         "Every load of a server-written cache (pickle.load of the directory cache, shelve.open(...,'r') of the ZIP index) is inside "
         "a try whose handlers cover every exception class a truncated or zero-filled file can raise, and the failure path "
         "regenerates without marking the data as cached (also when the flag had been set before the load); a dbm index is read "
@@ -180,7 +180,8 @@ CLAIMS.update({
     "C07": (
         "3/C07",
         "event-order analysis (fill < sort < build); order-sensitivity summaries of loop bodies per concrete class; "
-        "reachability of the ignore-pattern reader from handler tests; partial evaluation under 'name starts with a dot'",
+        "reachability of the ignore-pattern reader from handler tests; partial evaluation under 'name starts with a dot'; "
+        "site agreement in the multiplexer (stat argument = selector handed to the handlers)",
         "Structural clauses: entries are built from a sorted name list; every loop over listdir() either iterates a sorted "
         "sequence or has an order-insensitive body for every concrete class (with its hook overrides); the ignore pattern is "
         "consulted only while listing; dot-files never enter the UMN listing; the comparator is pure and reads only name/number; "
